@@ -1,4 +1,5 @@
 import RexModel.Async.Machine
+import RexModel.Async.Guard
 
 /-! # C02 — simulated-clock episodes are deterministic across thread schedules and speed
 
@@ -43,57 +44,11 @@ theorem C02_message_records_schedule_independent (cfg : Cfg T) (c : Nat) {σ₁ 
     s₁.q (.conn c .record) <+: s₂.q (.conn c .record) ∨ s₂.q (.conn c .record) <+: s₁.q (.conn c .record) :=
   records_schedule_independent _ (machine_stable cfg) (.conn c .record) rfl r1 r2
 
-/-- the wait condition of `push_expected_nonblocking` (a message with a receive time in the future of the step)
-implies the loop's break test — LATEST branch … -/
-theorem nb_future_implies_latest_break (skip : Bool) (ts tsStep : T) :
-    nb_has_future ts tsStep = true → nb_latest_break skip ts tsStep = true := by
-  intro h
-  simp only [nb_has_future] at h
-  simp only [nb_latest_break, h, Bool.true_or]
-
-/-- … and BUFFER branch. -/
-theorem nb_future_implies_buffer_break (skip : Bool) (ts tsStep : T) :
-    nb_has_future ts tsStep = true → nb_buffer_break_recv skip ts tsStep = true := by
-  intro h
-  simp only [nb_has_future] at h
-  simp only [nb_buffer_break_recv, h, Bool.true_or]
-
-theorem takeWhile_append_of_terminator {β : Type} (p : β → Bool) (l xs : List β)
-    (h : ∃ t ∈ l, p t = false) : (l ++ xs).takeWhile p = l.takeWhile p := by
-  induction l with
-  | nil => simp at h
-  | cons a l ih =>
-    simp only [List.cons_append, List.takeWhile_cons]
-    cases hp : p a with
-    | false => rfl
-    | true =>
-      simp only [ite_true]
-      congr 1
-      apply ih
-      obtain ⟨t, ht, hpt⟩ := h
-      rcases List.mem_cons.mp ht with rfl | ht'
-      · rw [hp] at hpt; cases hpt
-      · exact ⟨t, ht', hpt⟩
-
-/-- The number of messages a non-blocking connection hands to a step is decided by the *needed prefix* of the
-arrival queue (up to the first arrival in the step's future): whatever arrives later cannot change it. This is
-what makes the source's loop over the whole deque independent of how far the sender has run ahead. -/
-theorem nbCount_needed_prefix (cc : ConnCfg T) (tsStep : T) (pre rest : List (Val T))
+/-- The number of messages a non-blocking connection hands to a step is decided by the needed prefix of the arrival queue
+(proved in `Async/Guard.lean`, shared with C03). -/
+theorem C02_nbCount_needed_prefix (cc : ConnCfg T) (tsStep : T) (pre rest : List (Val T))
     (h : ∃ v ∈ pre, isFuture tsStep v = true) :
-    nbCount cc tsStep (pre ++ rest) = nbCount cc tsStep pre := by
-  unfold nbCount
-  congr 1
-  apply takeWhile_append_of_terminator
-  obtain ⟨v, hv, hf⟩ := h
-  refine ⟨v, hv, ?_⟩
-  cases v with
-  | tickTs seq ts =>
-    simp only [isFuture] at hf
-    have h1 := nb_future_implies_latest_break cc.skip ts tsStep hf
-    have h2 := nb_future_implies_buffer_break cc.skip ts tsStep hf
-    show (if (cc.jitter == 1) = true then _ else _) = false
-    split <;> simp [h1, h2]
-  | _ => simp [isFuture] at hf
+    nbCount cc tsStep (pre ++ rest) = nbCount cc tsStep pre := nbCount_needed_prefix cc tsStep pre rest h
 
 /-- non-vacuity: the initial state of any configuration admits the empty run, and a node with a token can fire -/
 example (cfg : Cfg T) : Run (machine cfg).toNet.sys (initState cfg) [] (initState cfg) := .nil _
